@@ -403,24 +403,41 @@ func (t *Term) decMode(mode int, set bool) {
 		t.Autowrap = set
 		t.DecModes[7] = set
 	case 1049, 1047, 47:
-		if set && !t.Alt {
+		// xterm (charproc.c, srm_OPT_ALTBUF_CURSOR): set = CursorSave,
+		// ToAlternate, ClearScreen; reset = FromAlternate, CursorRestore —
+		// whether or not the screen actually changes.
+		if set {
 			if mode == 1049 {
-				t.primary.saved = savedCursor{row: t.C.Row, col: t.C.Col, pen: t.Pen, wrap: t.PendingWrap, set: true}
+				t.cur.saved = savedCursor{row: t.C.Row, col: t.C.Col, pen: t.Pen, wrap: t.PendingWrap, set: true}
 			}
-			t.alt = newScreen(t.Cols, t.Rows)
-			t.cur = t.alt
-			t.Alt = true
-		} else if !set && t.Alt {
-			t.cur = t.primary
-			t.Alt = false
-			if mode == 1049 && t.primary.saved.set {
+			if !t.Alt {
+				t.cur = t.alt
+				t.Alt = true
+			}
+			if mode == 1049 {
+				for r := range t.cur.cells {
+					t.cur.cells[r] = blankRow(t.Cols, t.eraseStyle())
+				}
+			}
+		} else {
+			if t.Alt {
+				t.cur = t.primary
+				t.Alt = false
+			}
+			if mode == 1049 {
 				s := t.primary.saved
-				t.C.Row, t.C.Col = clamp(s.row, 0, t.Rows-1), clamp(s.col, 0, t.Cols-1)
 				link, lp := t.Pen.Link, t.Pen.LinkParams
-				t.Pen = s.pen
+				if s.set {
+					t.C.Row, t.C.Col = clamp(s.row, 0, t.Rows-1), clamp(s.col, 0, t.Cols-1)
+					t.Pen = s.pen
+					t.PendingWrap = s.wrap
+				} else {
+					t.C.Row, t.C.Col = 0, 0
+					t.Pen = Style{}
+					t.PendingWrap = false
+				}
 				t.Pen.Link, t.Pen.LinkParams = link, lp
 			}
-			t.PendingWrap = false
 		}
 		t.DecModes[1049] = t.Alt
 	case 2026:
